@@ -22,7 +22,7 @@ def gen(rng):
         return out
     return {"base": rng.choice(["sync", "sync", "pool"]), "base_name": rng.choice([None, "mine", "other"]),
             "before": chain(rng.randint(0, 2)), "after": chain(rng.randint(0, 3)),
-            "callable": rng.choice(["function", "partial", "object", "future"]),
+            "callable": rng.choice(["function", "partial", "object", "future", "object_attrs", "bound"]),
             "args": [rng.randrange(10) for _ in range(rng.randint(0, 2))],
             "script": [rng.choice(["ok", "ok", "err"]) for _ in range(3)] + ["ok"], "flat": rng.random() < 0.3}
 
@@ -94,6 +94,23 @@ def execute(p, chooser):
                 def __call__(self, *a):
                     return body(*a)
             return C()
+        if p["callable"] == "object_attrs":
+            # a callable object with attributes of its own, named like things a wrapper might keep
+            class D(object):
+                def __init__(self):
+                    self._fn = lambda *a: ("inner-fn", a)
+                    self._executor = Executors.sync()
+                    self.fn = self._fn
+                    self.executor = self._executor
+                    self.__wrapped__ = self._fn
+
+                def __call__(self, *a):
+                    return body(*a)
+            return D()
+        if p["callable"] == "bound":
+            # a callable that is itself bound to another executor (with a layer that marks what went through it)
+            other = Executors.sync(name="elsewhere").with_map(lambda v: (log.append((tag, "other-map", canon(v))), ("o", v))[1])
+            return other.bind(body)
         return body
 
     def outcome(f):
